@@ -269,6 +269,57 @@ class Interp:
 
     # ------------------------------------------------------------ entry points
     def call(self, mod, fnode, args=(), kwargs=None, self_obj=None, owner=None, closure=None):
+        """Calls of purely numeric functions (every argument a number, an expression, or a tuple of such; at any depth) convert data-dependent branches nobody decides into masks (if-conversion): every arm is interpreted and the result is
+        sum over arms of (product of the arm's conditions as 0/1 masks) * (value on that arm) -- the mask idiom the repository itself uses, so the identity tests sample all arms."""
+        if 'fork' in self.hooks or self_obj is not None or getattr(self, 'no_autofork', False):
+            return self._call(mod, fnode, args, kwargs, self_obj, owner, closure)
+
+        def plain(v):
+            if isinstance(v, (Node, int, Fraction, float, complex, bool, str, type(None), ArrBox)): return True
+            if isinstance(v, (tuple, list, Vec)): return all(plain(x_) for x_ in v)
+            return False
+        if not (all(plain(a_) for a_ in args) and all(plain(v_) for v_ in (kwargs or {}).values())):
+            return self._call(mod, fnode, args, kwargs, self_obj, owner, closure)
+        try:
+            return self._call(mod, fnode, list(args), dict(kwargs or {}), self_obj, owner, closure)
+        except AnalysisError as ex:
+            if 'branch on a symbolic condition' not in str(ex):
+                raise
+            first = ex
+
+        def one(fork):
+            self.hooks['fork'] = fork
+            try:
+                return self._call(mod, fnode, list(args), dict(kwargs or {}), self_obj, owner, closure)
+            finally:
+                self.hooks.pop('fork', None)
+        paths = PathExplorer(max_paths=64).run(one)
+
+        def weight(trace):
+            w = X.ONE
+            for (v, _w, _t, outcome) in trace:
+                if not isinstance(v, Node):
+                    raise first
+                w = X.mul(w, v if outcome else X.add(X.ONE, X.neg(v)))
+            return w
+
+        def merge(vals, ws):
+            v0 = vals[0]
+            if all(v is v0 for v in vals): return v0
+            if all(isinstance(v, (Node, int, Fraction, ArrBox)) and not isinstance(v, bool) for v in vals):
+                acc = X.ZERO
+                for v, w in zip(vals, ws): acc = X.add(acc, X.mul(w, to_node(v)))
+                return acc
+            if all(isinstance(v, (tuple, list)) and len(v) == len(v0) for v in vals):
+                r = [merge([v[i_] for v in vals], ws) for i_ in range(len(v0))]
+                return tuple(r) if isinstance(v0, tuple) else r
+            if all(isinstance(v, dict) and list(v) == list(v0) for v in vals):
+                return {k_: merge([v[k_] for v in vals], ws) for k_ in v0}
+            if all(not isinstance(v, (Node, ArrBox, tuple, list, dict)) and v == v0 for v in vals): return v0
+            raise first
+        return merge([v for _t, v in paths], [weight(t) for t, _v in paths])
+
+    def _call(self, mod, fnode, args=(), kwargs=None, self_obj=None, owner=None, closure=None):
         """Bind arguments as Python would and interpret the body. Returns the returned value (None if falls off)."""
         kwargs = dict(kwargs or {})
         frame = Frame(mod, fnode.name, parent=closure)
